@@ -27,8 +27,6 @@ Definition triv {X} (x : X) : Prop := True.
 
 (** the toy font-info validator: guideline identifiers are distinct (the part of
     [FontInfo::validate] the font-level logic relies on) *)
-Fixpoint nodupb (l : list str) : bool :=
-  match l with [] => true | x :: r => negb (existsb (str_eqb x) r) && nodupb r end.
 Definition toy_info_ok (i : finfo N N tdict) : bool :=
   match i_guides i with Some l => nodupb (some_ids (map g_id l)) | None => true end.
 
